@@ -53,7 +53,7 @@ def enclosing_fn(text_lines, line):
 
 
 def run_verus(path, rlimit=None, seed=None, extra=None, timeout=900):
-    cmd = ["verus", os.path.basename(path), "--error-format=json", "--output-json", "--time", "--multiple-errors", "8"]
+    cmd = ["verus", os.path.basename(path), "--error-format=json", "--output-json", "--time", "--multiple-errors", "40"]
     if rlimit:
         cmd += ["--rlimit", str(rlimit)]
     if seed is not None:
